@@ -8,6 +8,6 @@ import c10, common
 
 
 def run(tier, seed, replay):
-    n = 60 if tier == 'quick' else 1500
+    n = 60 if tier == 'quick' else 600
     gate = common.proof_gate('C01', ['Model/Dev.v', 'Proofs/DevProps.v', 'Props/C01.v'])
-    return c10.run_foreign('C01', tier, seed, ('read', 'api', 'open', 'setup'), n, 'Theorems over the device model (Props/C01.v) + model/library correspondence + FlatDisk oracle on every read (incl. a full sweep) of histories over library-formatted and independently built images.', plain_n=(90 if tier == 'quick' else 1500), level='proof', gate=gate, sim_n=(60 if tier == 'quick' else 1500))
+    return c10.run_foreign('C01', tier, seed, ('read', 'api', 'open', 'setup'), n, 'Theorems over the device model (Props/C01.v) + model/library correspondence + FlatDisk oracle on every read (incl. a full sweep) of histories over library-formatted and independently built images.', plain_n=(90 if tier == 'quick' else 600), level='proof', gate=gate, sim_n=(60 if tier == 'quick' else 600))
